@@ -1065,9 +1065,22 @@ class unyt_array(np.ndarray):
         else:
             to_units = self.units.get_base_equivalent(unit_system)
             conv, offset = self.units.get_conversion_factor(to_units, self.dtype)
-        ret = self.v * conv
+        # same dtype rule as in_units: integers become floats of their own
+        # item size (at least 16 bits), float and complex data keep their width
+        dsize = max(2, self.dtype.itemsize)
+        if self.dtype.kind in ("u", "i"):
+            large = LARGE_INPUT.get(dsize, 0)
+            if large and np.any(np.abs(self.d) >= large):
+                warnings.warn(
+                    f"Overflow encountered while converting to units '{to_units}'",
+                    RuntimeWarning,
+                    stacklevel=2,
+                )
+        new_dtypekind = "c" if self.dtype.kind == "c" else "f"
+        new_dtype = np.dtype(new_dtypekind + str(dsize))
+        ret = np.asarray(self.ndview * conv, dtype=new_dtype)
         if offset:
-            ret = ret - offset
+            np.subtract(ret, offset, ret)
         return type(self)(ret, to_units)
 
     def in_cgs(self):
